@@ -272,34 +272,38 @@ theorem sumK_faithful (add : Val → Val → Except Exc Val) {next : σ → Resp
     | zero => simp at hf
     | succ n => simp [sumK, hn, classify_other, specSum, toPy_other]
 
-theorem minMaxK_faithful (cmp : Val → Val → Except Exc Bool) {next : σ → Resp × σ} {s : σ} {sc : Script}
-    (h : Runs next s sc) (fuel : Nat) (hf : sc.length < fuel) (best : Option Val) :
-    minMaxK .isException cmp next fuel s best = specMinMax cmp sc best := by
+theorem minMaxKeyK_faithful (key : Val → Except PyErr Val) (cmp : Val → Val → Except Exc Bool) {next : σ → Resp × σ} {s : σ} {sc : Script}
+    (h : Runs next s sc) (fuel : Nat) (hf : sc.length < fuel) (best : Option (Val × Val)) (dflt : Option Val) :
+    minMaxKeyK .isException key cmp next fuel s best dflt = specMinMaxKey key cmp sc best dflt := by
   induction h generalizing fuel best with
   | nil hn hs _ =>
     cases fuel with
     | zero => simp at hf
-    | succ n => cases best <;> simp [minMaxK, hn, classify_stop hs, specMinMax]
+    | succ n => cases best <;> cases dflt <;> simp [minMaxKeyK, hn, classify_stop hs, specMinMaxKey]
   | @item s v s' r hn _ ih =>
     cases fuel with
     | zero => simp at hf
     | succ n =>
       simp only [List.length_cons, Nat.add_lt_add_iff_right] at hf
-      cases best with
-      | none => simp [minMaxK, hn, specMinMax, ih n hf]
-      | some b =>
-        simp only [minMaxK, hn, specMinMax]
-        cases ht : cmp v b with
-        | error e => simp
-        | ok c => simp [ih n hf]
+      simp only [minMaxKeyK, hn, specMinMaxKey]
+      cases hk : key v with
+      | error e => simp
+      | ok kv =>
+        cases best with
+        | none => simp [ih n hf]
+        | some b =>
+          simp only []
+          cases ht : cmp kv b.1 with
+          | error e => simp
+          | ok c => simp [ih n hf]
   | @stop s e s' st r v hst hn hs hv =>
     cases fuel with
     | zero => simp at hf
-    | succ n => cases st <;> cases best <;> simp_all [Step.stopValue?, minMaxK, classify_stop hs, specMinMax]
+    | succ n => cases st <;> cases best <;> cases dflt <;> simp_all [Step.stopValue?, minMaxKeyK, classify_stop hs, specMinMaxKey]
   | raise hn =>
     cases fuel with
     | zero => simp at hf
-    | succ n => cases best <;> simp [minMaxK, hn, classify_other, specMinMax, toPy_other]
+    | succ n => cases best <;> cases dflt <;> simp [minMaxKeyK, hn, classify_other, specMinMaxKey, toPy_other]
 
 end GPy.C05
 
@@ -385,34 +389,55 @@ theorem listIter_runs (vs : List Val) : Runs listIterNext vs (vs.map .item) := b
   | nil => exact .nil (e := .stopType) (s' := []) rfl rfl rfl
   | cons v r ih => exact .item (s' := r) rfl ih
 
+/-- `Generator.Send` = `resume` without an exception: the body the first round modelled -/
+theorem GenObj.send_eq {φ : Type} (run : Entry → φ → RunOut × φ) (g : GenObj φ) (arg : Val) :
+    g.send run arg =
+      if g.running then (.err (.other .value), g, false)
+      else if g.fresh && arg != .none then (.err (.other .type), g, false)
+      else if !g.fresh && !g.yielded then (.err .stopType, g, false)
+      else
+        match run (if g.fresh then .first else .send arg) g.frame with
+        | (.raise e, fr) => (.err e, { fresh := false, yielded := false, running := false, frame := fr }, true)
+        | (.yield v, fr) => (.item v, { fresh := false, yielded := true, running := false, frame := fr }, true)
+        | (.ret v, fr) =>
+          if v != .none then (.err (.stopExc v), { fresh := false, yielded := false, running := false, frame := fr }, true)
+          else (.err .stopType, { fresh := false, yielded := false, running := false, frame := fr }, true) := by
+  obtain ⟨fresh, yielded, running, frame⟩ := g
+  cases running <;> cases fresh <;> cases yielded <;> simp [GenObj.send, GenObj.resume]
+  all_goals (try (by_cases ha : arg = .none <;> simp [ha]))
+  all_goals
+    generalize run _ frame = x
+    obtain ⟨o, fr⟩ := x
+    cases o <;> simp
+
 /-- a live generator object (not running; fresh or suspended at a yield) whose frame performs `sc` -/
 theorem gen_runs_aux (sc : Script) (fresh : Bool) :
     Runs (genNext scriptRun) { fresh := fresh, yielded := !fresh, running := false, frame := sc } sc := by
   induction sc generalizing fresh with
   | nil =>
     refine .nil (e := .stopType) (s' := { fresh := false, yielded := false, running := false, frame := [] }) ?_ rfl rfl
-    cases fresh <;> simp [genNext, GenObj.next, GenObj.send, scriptRun]
+    cases fresh <;> simp [genNext, GenObj.next, GenObj.send_eq, scriptRun]
   | cons st r ih =>
     cases st with
     | item v =>
       refine .item (s' := { fresh := false, yielded := true, running := false, frame := r }) ?_ (ih false)
-      cases fresh <;> simp [genNext, GenObj.next, GenObj.send, scriptRun]
+      cases fresh <;> simp [genNext, GenObj.next, GenObj.send_eq, scriptRun]
     | stopClass =>
       refine .stop (e := .stopType) (s' := { fresh := false, yielded := false, running := false, frame := r }) (v := .none) rfl ?_ rfl rfl
-      cases fresh <;> simp [genNext, GenObj.next, GenObj.send, scriptRun]
+      cases fresh <;> simp [genNext, GenObj.next, GenObj.send_eq, scriptRun]
     | stopInstance =>
       refine .stop (e := .stopInfoInst none) (s' := { fresh := false, yielded := false, running := false, frame := r }) (v := .none) rfl ?_ rfl rfl
-      cases fresh <;> simp [genNext, GenObj.next, GenObj.send, scriptRun]
+      cases fresh <;> simp [genNext, GenObj.next, GenObj.send_eq, scriptRun]
     | stopVal v =>
       by_cases hv : v = .none
       · subst hv
         refine .stop (e := .stopType) (s' := { fresh := false, yielded := false, running := false, frame := r }) (v := .none) rfl ?_ rfl rfl
-        cases fresh <;> simp [genNext, GenObj.next, GenObj.send, scriptRun]
+        cases fresh <;> simp [genNext, GenObj.next, GenObj.send_eq, scriptRun]
       · refine .stop (e := .stopExc v) (s' := { fresh := false, yielded := false, running := false, frame := r }) (v := v) rfl ?_ rfl rfl
-        cases fresh <;> simp [genNext, GenObj.next, GenObj.send, scriptRun, hv]
+        cases fresh <;> simp [genNext, GenObj.next, GenObj.send_eq, scriptRun, hv]
     | raise e =>
       refine .raise (s' := { fresh := false, yielded := false, running := false, frame := r }) ?_
-      cases fresh <;> simp [genNext, GenObj.next, GenObj.send, scriptRun]
+      cases fresh <;> simp [genNext, GenObj.next, GenObj.send_eq, scriptRun]
 
 /-! ### adapters preserve realisation -/
 
@@ -437,7 +462,7 @@ theorem enum_runs {next : σ → Resp × σ} {s : σ} {sc : Script} (h : Runs ne
 
 
 section
-variable {φ : Type} (run : Option Val → φ → RunOut × φ)
+variable {φ : Type} (run : Entry → φ → RunOut × φ)
 
 theorem send_spec (g : GenObj φ) (hr : g.running = false) (a : Val) (r : List Val) :
     specHistory run (a :: r) (!g.fresh) (g.fresh || g.yielded) g.frame =
@@ -446,7 +471,7 @@ theorem send_spec (g : GenObj φ) (hr : g.running = false) (a : Val) (r : List V
   obtain ⟨fresh, yielded, running, frame⟩ := g
   simp only at hr
   subst hr
-  cases fresh <;> cases yielded <;> by_cases ha : a = .none <;> simp [specHistory, GenObj.send, ha]
+  cases fresh <;> cases yielded <;> by_cases ha : a = .none <;> simp [specHistory, GenObj.send_eq, ha]
   all_goals
     generalize hx : run _ frame = x
     obtain ⟨o, fr⟩ := x
@@ -524,5 +549,8 @@ theorem zip_runs {n1 : σ → Resp × σ} {n2 : τ → Resp × τ} {s1 : σ} {s2
     rw [this]
     exact .raise (s' := (s', s2)) (by simp [zipNext, hn, hk, adaptErr_forward])
 end
+
+theorem isStop_genExit : (NextErr.other Exc.genExit).isStop = false := rfl
+theorem isGenExit_genExit : (NextErr.other Exc.genExit).isGenExit = true := rfl
 
 end GPy.C05
